@@ -1445,6 +1445,39 @@ def w17(rep, f_foam):
     rep.floor("bintFree calls in foam.c", n, 2)
 
 
+def w18(rep):
+    """The text form writes a float with DFloatSprint (`%#.17g`) and then makes sure it carries an exponent marker; the reader
+    (sxiIoIsPotentialNumber) wants a digit after the decimal point.  `%#g` prints a number whose seventeen significant digits
+    all stand before the point -- every double in [1e16, 1e17) -- as `12345678901234568.`, so the marker lands directly
+    after the point and the saved .fm is refused (`Meaningless potential number`).  In the block of sexpr.c that writes a float,
+    a test of the character before the appended marker against '.' puts a '0' there."""
+    f = common.extract("sexpr.c", all_trees=True)
+    n = 0
+    for name, fn in sorted(f.funcs.items()):
+        if "body" not in fn or not fn.get("file", "").endswith("sexpr.c"):
+            continue
+        for c in calls(fn["body"], "DFloatSprint"):
+            par = common.parents(fn["body"])
+            blk = c
+            while blk["id"] in par and blk["k"] != "CompoundStmt":
+                blk = par[blk["id"]]
+            n += 1
+            guarded = False
+            for x in walk(blk):
+                if x["k"] == "IfStmt" and any(const_value(y) == ord(".") for y in walk(x["c"][0])) and \
+                        any(y["k"] == "BinaryOperator" and y["op"] == "=" and const_value(y["c"][1]) == ord("0") for y in walk(x["c"][1])):
+                    guarded = True
+            key = "float-text-has-a-fraction-digit:%s" % name
+            if guarded:
+                rep.ok("W18", key)
+            else:
+                rep.violation("W18", key, "sexpr.c:%d (%s)" % (c["l"], name),
+                              "the exponent marker is appended to whatever DFloatSprint printed: for a double in [1e16, 1e17) that is "
+                              "`12345678901234568.`, and `12345678901234568.e0` is not a number for the reader of the same file -- a "
+                              "unit saved with -Ffm cannot be compiled from the .fm (`Meaningless potential number`)")
+    rep.floor("float writers of the text form", n, 1)
+
+
 def run(tier, only=None):
     rep = common.Report("C05", tier, EXPLANATION)
     f_foam = common.extract("foam.c", all_trees=True)
@@ -1472,6 +1505,7 @@ def run(tier, only=None):
     w12(rep, f_foam)
     w16(rep, f_foam)
     w17(rep, f_foam)
+    w18(rep)
     from . import c19_float, immed
     immed.report(rep, "W14", units=["foam.c", "sexpr.c"], floor=2)      # integers of the text form (.fm) read back in full
     c19_float.sentinels(rep, "W13")
